@@ -721,6 +721,14 @@ class Engine:
         return n
 
     def do_call(self, item, frame, st, trace, t, site, depth, loops, work, out, cont):
+        if "fnptr" in t and not (t.get("resolved") or t.get("callee")):
+            # a call through a function pointer whose value is known on this path (a workspace function handed to a helper that
+            # was inlined, `cmp_fr(a, b, u_lt)`): it is a call of that function
+            fv = self.value_of(st, self.operand(item, frame, st, t["fnptr"]))
+            while isinstance(fv, tuple) and fv and fv[0] == "cast":
+                fv = fv[2]
+            if isinstance(fv, tuple) and len(fv) == 2 and fv[0] == "fn" and self.fb.lookup(fv[1]) is not None:
+                t = dict(t, resolved=fv[1], callee=fv[1])
         name = callee_name(t)
         raw_args = [self.operand(item, frame, st, a) for a in t["args"]]
         # which args are mutable pointers
